@@ -231,7 +231,7 @@ func runC24(c *Ctx) {
 					continue
 				}
 				n++
-				ok2 := ssau.DependsOn(call.Call.Args[0], func(x ssa.Value) bool { return methodCallNamed(x, "Hash") })
+				ok2 := ssau.DependsOn(call.Call.Args[0], func(x ssa.Value) bool { return methodCallNamed(x, "Hash") || methodCallNamed(x, "HashWithAux") })
 				c.R.Check("F-rand", "seed|"+fname(root), ok2, c.posOf(call), "the generator's seed must derive from a block hash")
 			}
 		}
